@@ -57,6 +57,9 @@ CLAIMS = {
  "C14": dict(technique="Lean 4 round-trip and faithfulness theorems for Date/HMS/DHMS/DateHMS text forms (any year, all integer field values) + exhaustive 86,400-time and short-string correspondence",
              text="Machine-checked proof: String then Parse is the identity for dates (any year incl. negative and >4 digits), times, days+time (any uint day count) and date-times with uint8 fields; `h:m:s`, `y/m/d` and `days h:m:s` written with ANY integer fields parse, pass the validity check iff every field is in range, and then carry exactly the numbers written. Totality: the models have no panic branch (see level_note); durations are compared on plain decimals. Tie: all 86,400 times, month x day x 50 years, sampled days+time and date-times, every string of length <=4/5/6 over the 10-symbol alphabet for 8 parsers, faithfulness stream with written fields in [-70000,70000].",
              design="7 (C14)", note=TXT_NOTE),
+ "C15": dict(technique="Lean 4 history theorem over a register machine (invariant + per-step Hoare triple against a membership-only specification, induction over the operation list) + histories run on both implementations against the model and an independent reference",
+             text="Machine-checked proof: every step of every operation history (any length, any universe with decidable equality) from the empty registers satisfies `Spec` — the answer is the mathematical one, the destination holds exactly the mathematical result, every other register (the operands) is unchanged — and `Nodup` is invariant; plus membership laws for union/intersection/difference/symmetric difference/subset/superset/equality, Cartesian product membership, power set size 2^n / soundness / completeness. Tie: whole histories over three registers, answered step by step by the model, by NewSet() and by NewThreadUnsafeSet(); exhaustive short histories over a reduced alphabet and seeded random histories of length <=60; the oracle checks all three registers against an independent reference after every step (aliasing of results and operands shows there).",
+             design="7 (C15)", note="Trusted: Lean kernel + standard axioms; correspondence check. Modelled: Go maps as duplicate-free lists (iteration order canonicalised by sorting on both sides); the thread-safe set as the same data functions (its locking is C16/C17); PowerSet/CartesianProduct/String/Iter/ToSlice are observers outside the register machine's `Op` type, covered by their own lemmas and the correspondence."),
 }
 
 PENDING = {}
